@@ -3,6 +3,7 @@
 pub mod blocks;
 pub mod epoch;
 pub mod net;
+pub mod nsim;
 pub mod votes;
 pub mod pool_driver;
 pub mod pool_model;
